@@ -80,6 +80,13 @@ def script(rng, kinds, roles, rep, bw2=False):
              {"a": "statssync", "nums": [1, 2, 3, 4]},   # (the statistics recorders are started by a goroutine per stream)
              # a prior history, so that feedback about packets 1000.. (transport-wide numbers 0..) names sent packets
              {"a": "par", "par": [{"a": "wrtp", "s": 1, "w": 1000, "id": 1, "len": 20, "shape": 0, "fail": False, "rep": 40}]},
+             # a packet the chain may refuse (payload above the responder's 1460 bytes; padding count above the payload): the
+             # refusal must leave the stream usable for everything that follows, from every goroutine
+             # (not next to a stats member: the counter conservation clause compares with the writes that SUCCEEDED, and a
+             # stats interceptor above the refusing member has counted the packet before it was refused)
+             ] + ([] if "stats" in kinds else [
+                 {"a": "wrtp", "s": 1, "w": 1100, "id": 2, "len": 1500, "shape": 0, "fail": False},
+                 {"a": "wrtp", "s": 1, "w": 1101, "id": 3, "len": 50, "shape": 4, "fail": False}]) + [
              {"a": "par", "par": [role_step(rng, r, rep, fb) for r in roles]},
              {"a": "wait", "ms": 3}]
     if "stats" in kinds and "close" not in roles:
